@@ -733,6 +733,7 @@ class CoreTestNetParams(CoreMainParams):
 class CoreSigNetParams(CoreMainParams):
     NAME = 'signet'
     GENESIS_BLOCK = CBlock.deserialize(x('0100000000000000000000000000000000000000000000000000000000000000000000003ba3edfd7a7b12b27ac72c3e67768f617fc81bc3888a51323a9fb8aa4b1e5e4a008f4d5fae77031e8ad222030101000000010000000000000000000000000000000000000000000000000000000000000000ffffffff4d04ffff001d0104455468652054696d65732030332f4a616e2f32303039204368616e63656c6c6f72206f6e206272696e6b206f66207365636f6e64206261696c6f757420666f722062616e6b73ffffffff0100f2052a01000000434104678afdb0fe5548271967f1a67130b7105cd6a828e03909a67962e0ea1f61deb649f6bc3f4cef38c4f35504e51ec112de5c384df7ba0b8d578a4c702b6bf11d5fac00000000'))
+    PROOF_OF_WORK_LIMIT = 0x00000377ae000000000000000000000000000000000000000000000000000000
 
 class CoreRegTestParams(CoreTestNetParams):
     NAME = 'regtest'
